@@ -64,6 +64,11 @@ func registerOnce() {
 	plugin.Register(reflect.TypeOf((*ZvOuter)(nil)).Elem(), "of", func(c OuterConf) func() (ZvOuter, error) {
 		return func() (ZvOuter, error) { return &outerImpl{c}, nil }
 	}, func() OuterConf { return OuterConf{A: 1, B: "default"} })
+	// registered defaults that violate a constraint themselves: usable only with a setting that repairs them
+	plugin.Register(reflect.TypeOf((*ZvOuter)(nil)).Elem(), "inv", func(c OuterConf) ZvOuter { return &outerImpl{c} }, func() OuterConf { return OuterConf{A: 1, B: "default", P: 1000} })
+	plugin.Register(reflect.TypeOf((*ZvOuter)(nil)).Elem(), "invf", func(c OuterConf) func() (ZvOuter, error) {
+		return func() (ZvOuter, error) { return &outerImpl{c}, nil }
+	}, func() OuterConf { return OuterConf{A: 1, B: "default", P: 1000} })
 }
 
 // laterCalls: with invalid settings, calls 2 and 3 of a factory must fail like call 1.
@@ -115,6 +120,13 @@ func runConfigTier(out *hutil.Out) {
 		{name: "invalid", data: map[string]any{"type": "o", "p": 1000}, wantErr: true},
 		{name: "invalid-factory-ctor", data: map[string]any{"type": "of", "p": 1000}, wantErr: true},
 		{name: "invalid-nested", data: map[string]any{"type": "o", "self": map[string]any{"type": "o", "p": 1000}}, wantErr: true},
+		// a section that gives nothing but the type is still decoded and validated
+		{name: "type-only-invalid-default", data: map[string]any{"type": "inv"}, wantErr: true},
+		{name: "type-only-invalid-default-factory-ctor", data: map[string]any{"type": "invf"}, wantErr: true},
+		{name: "type-only-invalid-default-nested", data: map[string]any{"type": "o", "self": map[string]any{"type": "inv"}}, wantErr: true},
+		{name: "invalid-default-repaired", data: map[string]any{"type": "inv", "p": 5}, want: "A=1 B=default"},
+		{name: "invalid-default-repaired-factory-ctor", data: map[string]any{"type": "invf", "p": 5}, want: "A=1 B=default"},
+		{name: "type-only", data: map[string]any{"type": "o"}, want: "A=1 B=default"},
 		{name: "plain", data: map[string]any{"type": "o", "a": 7}, want: "A=7 B=default"},
 		{name: "nested", data: map[string]any{"type": "o", "b": "x", "nested": map[string]any{"type": "n", "v": 3}}, want: "A=1 B=x nested=3"},
 		{name: "nested-default", data: map[string]any{"type": "o", "nested": map[string]any{"type": "n"}}, want: "A=1 B=default nested=1"},
